@@ -48,6 +48,8 @@ ASSUMPTIONS = [
     "SLIP39 supersets of a qualifying set (more shares/groups than the threshold) may be refused (the reference "
     "implementation does): judged only when answered",
     "sentences whose words are separated by anything but single U+0020 / U+3000 are outside BIP39 (statistic only)",
+    "btclib's documented 512-bit entropy size (48-word sentences, CS = ENT/32) is outside the property's 128..256 bits: "
+    "its acceptance is a statistic (bip39:512-bit-extension-accepted), never judged",
 ]
 
 LANGS = ["cs", "en", "es", "fr", "it", "ja", "ko", "pt", "ru", "tr", "zh", "zh_tw"]
@@ -587,7 +589,7 @@ def _seed_mech(got: bytes, sentence: str, passphrase: str) -> str:
 
 
 def _ext_indexes(entropy: bytes) -> list[int]:
-    """The BIP39 formula applied to an entropy size the BIP does not allow (CS = ENT/32 still)."""
+    """The BIP39 formula (CS = ENT/32) applied to an entropy size outside the BIP's five."""
     ent = 8 * len(entropy)
     cs = ent // 32
     import hashlib
@@ -595,6 +597,17 @@ def _ext_indexes(entropy: bytes) -> list[int]:
     bits = _binstr(entropy) + _binstr(hashlib.sha256(entropy).digest())[:cs]
     bits += "0" * (-len(bits) % 11)
     return [int(bits[i: i + 11], 2) for i in range(0, len(bits), 11)]
+
+
+def _ext48_entropy(idx) -> bytes | None:
+    """48 words read by the same formula at ENT=512, CS=16 (btclib's documented 512-bit size): entropy or None."""
+    import hashlib
+
+    bits = "".join(f"{i:011b}" for i in idx)
+    if len(bits) != 528:
+        return None
+    e = int(bits[:512], 2).to_bytes(64, "big")
+    return e if _binstr(hashlib.sha256(e).digest())[:16] == bits[512:] else None
 
 
 def _bip39_lengths(ctx: Ctx, bip39, lang: str, W, IM, want: list[str], rng, case: dict) -> None:
@@ -605,6 +618,18 @@ def _bip39_lengths(ctx: Ctx, bip39, lang: str, W, IM, want: list[str], rng, case
             continue
         sent = " ".join(words)
         o = outcome(bip39.entropy_from_mnemonic, sent, lang)
+        if len(words) == 48:
+            # btclib's 512-bit extension (outside the property's 128..256 bits): acceptance is never judged; only a
+            # sentence whose 16 checksum bits are wrong by the same formula must still be refused
+            ext = _ext48_entropy([IM[w] for w in words])
+            if o[0] == "ok":
+                if ext is None:
+                    ctx.violation("bip39-checksum:invalid-sentence-accepted", f"{lang}: 48 words with a wrong checksum accepted as {o[1][:40]!r}..",
+                                  {**case, "mnemonic": sent})
+                else:
+                    ctx.stat("bip39:512-bit-extension-accepted")
+            ctx.case("bip39:length", ("len", lang, sent))
+            continue
         if o[0] == "ok":
             ctx.violation(f"bip39-length:sentence-of-undefined-length-accepted:{tag}",
                           f"{lang}: a sentence of {len(words)} words was accepted as {o[1]!r}", {**case, "mnemonic": sent})
@@ -619,15 +644,45 @@ def _bip39_lengths(ctx: Ctx, bip39, lang: str, W, IM, want: list[str], rng, case
 
 
 def _bip39_sizes(ctx: Ctx, bip39, lang: str, W, rng) -> None:
-    """ENT outside {128,160,192,224,256}: "The allowed size of ENT is 128-256 bits", a multiple of 32."""
+    """ENT outside {128,160,192,224,256} must be refused, and so must word counts outside {12,15,18,21,24}.
+
+    One exception, recorded as a statistic and never judged: btclib documents 512 bits as an allowed entropy size
+    (and truncates longer input to it), which the formula CS = ENT/32 turns into 48 words; the property quantifies
+    over 128..256 bits only.
+    """
     for n in (4, 8, 12, 15, 17, 18, 31, 33, 36, 40, 48, 64, 65):
         e = rng.randbytes(n)
         o = outcome(bip39.mnemonic_from_entropy, e, lang)
+        if n >= 64:
+            if o[0] == "ok":
+                ctx.stat("bip39:512-bit-extension-accepted")
+                if n != 64:
+                    # longer input is cut to 512 bits after its leading zero bits are dropped (documented truncation,
+                    # outside the property's sizes): nothing to compare with
+                    ctx.case("bip39:entropy-size", ("size", lang, n))
+                    continue
+                # ordinary checks on the extension where it answers: formula, round trip, checksum binding
+                idx = _ext_indexes(e[:64])
+                if _nfkd_words(o[1]) != [W[i] for i in idx]:
+                    ctx.violation("bip39-512-bit-extension:sentence-differs-from-formula", f"{lang}: 64-byte entropy -> {o[1][:60]!r}..", {"lang": lang, "entropy": e})
+                o2 = outcome(bip39.entropy_from_mnemonic, o[1], lang)
+                if o2[0] == "ok" and o2[1] != _binstr(e[:64]):
+                    ctx.violation("bip39-512-bit-extension:wrong-entropy", f"{lang}: own 48-word sentence decoded to other entropy", {"lang": lang, "entropy": e})
+                pos = rng.randrange(48)
+                idx2 = idx[:pos] + [(idx[pos] + 1 + rng.randrange(2047)) % 2048] + idx[pos + 1:]
+                if _ext48_entropy(idx2) is None:
+                    sent = " ".join(W[i] for i in idx2)
+                    o3 = outcome(bip39.entropy_from_mnemonic, sent, lang)
+                    if o3[0] == "ok":
+                        ctx.violation("bip39-checksum:invalid-sentence-accepted", f"{lang}: 48 words with a wrong checksum accepted", {"lang": lang, "mnemonic": sent})
+            else:
+                ctx.stat("bip39:512-bit-extension-refused")
+            ctx.case("bip39:entropy-size", ("size", lang, n))
+            continue
         if o[0] == "ok":
-            bits = min(8 * n, 512)
-            ctx.violation(f"bip39-entropy-size:outside-128..256-accepted:{bits}-bits",
-                          f"{lang}: mnemonic_from_entropy({n} bytes) returned a sentence of {len(o[1].split())} words; BIP39 allows ENT of 128..256 bits",
-                          {"lang": lang, "entropy": e, "mnemonic": o[1]})
+            ctx.violation(f"bip39-entropy-size:outside-allowed-sizes-accepted:{8 * n}-bits",
+                          f"{lang}: mnemonic_from_entropy({n} bytes) returned a sentence of {len(o[1].split())} words; "
+                          f"BIP39 allows ENT of 128, 160, 192, 224, 256 bits (btclib adds 512)", {"lang": lang, "entropy": e, "mnemonic": o[1]})
         ctx.case("bip39:entropy-size", ("size", lang, n))
         if n % 4 == 0 and n not in (16, 20, 24, 28, 32):
             idx = _ext_indexes(e)
@@ -636,7 +691,7 @@ def _bip39_sizes(ctx: Ctx, bip39, lang: str, W, rng) -> None:
             if o[0] == "ok":
                 ctx.violation(f"bip39-length:sentence-of-undefined-length-accepted:{len(idx)}-words",
                               f"{lang}: a {len(idx)}-word sentence (ENT={8 * n}, CS={n // 4} bits by extrapolating the BIP's formula) was accepted; "
-                              f"BIP39 defines 12, 15, 18, 21 and 24 words", {"lang": lang, "mnemonic": sent})
+                              f"BIP39 defines 12, 15, 18, 21 and 24 words (btclib adds 48)", {"lang": lang, "mnemonic": sent})
             ctx.case("bip39:length", ("extlen", lang, sent))
 
 
